@@ -1153,6 +1153,28 @@ fn gen_e2e(rng: &mut Rng, tier: &str) -> Vec<String> {
             let (a, b) = (*rng.pick(&ks), *rng.pick(&ks));
             v.push(format!("L s:0:60:{}:1:0 A c:{} r:100 x c:{} r:3000 K q", m, a, b));
         }
+        // DataVersionFilters of the subscribe request apply to the priming only: a filter one step ahead of a
+        // cluster's version (the cluster reaches it with the next change), and a filter equal to the current
+        // version (the priming legitimately leaves that cluster out; its later changes must be reported)
+        for i in 0..10u64 {
+            let (m, ks) = mask(rng);
+            let a = *rng.pick(&ks);
+            let b = *rng.pick(&ks);
+            let (ca, cb) = (a / 4, b / 4);
+            let filt = match i % 3 {
+                0 => format!("f{}+1", ca),
+                1 => format!("f{}+1/f{}+0", ca, (ca + 1) % 6),
+                _ => format!("f{}+0", ca),
+            };
+            let tail = match i % 4 {
+                0 => format!("A c:{} r:100 K q", a),
+                1 => format!("A c:{} r:100 c:{} K q", a, b),
+                2 => format!("c:{} A q c:{} q", a, b),
+                _ => format!("A c:{} q c:{} c:{} q", a, a, b),
+            };
+            let _ = cb;
+            v.push(format!("L s:0:60:{}:1:0:{} {}", m, filt, tail));
+        }
         // free interleavings of the steps
         for _ in 0..40 {
             let (m, ks) = mask(rng);
